@@ -214,7 +214,7 @@ pub fn get_highest_quality_language(accept_language: String) -> Option<String> {
                 .to_ascii_lowercase();
             let quality: f32 = lang_and_quality
                 .next()
-                .and_then(|q| q.trim_start_matches("q=").parse::<f32>().ok())
+                .and_then(|q| q.trim().trim_start_matches("q=").parse::<f32>().ok())
                 .unwrap_or(1.0);
 
             LANGUAGES
